@@ -544,7 +544,10 @@ class ActivityAnalyzer(transformer.Base):
     # the target name are appropriately ignored.
     node.iter = self.visit(node.iter)
     node.target = self.visit(node.target)
-    return self.generic_visit(node)
+    # Note: iter and target must not be visited a second time (scopes recorded
+    # for lambdas inside them would be overwritten).
+    node.ifs = self.visit_block(node.ifs)
+    return node
 
   def visit_DictComp(self, node):
     return self._process_comprehension(node, is_dict_comp=True)
